@@ -196,5 +196,60 @@ def check(case: t.Any, ctx: Ctx) -> None:
         ctx.fail('table-rejects', f"{vkind}->{tname}", f"{cell}: accepted as {short(got, 80)} but the value is not a member ({r.why})")
 
 
+# ---- contexts composed two or three deep (Hypothesis) ------------------------------------------------------
+
+COMPOSABLE = [c for c in CONTEXTS if c not in ('top', 'struct-field')]
+
+
+def deep_cases():
+    from hypothesis import strategies as st
+    return st.tuples(st.integers(0, len(VALUES) - 1), st.integers(0, len(TARGETS) - 1),
+                     st.lists(st.sampled_from(COMPOSABLE), min_size=2, max_size=3)).map(list)
+
+
+def render_deep(case: t.Any) -> t.Any:
+    (vi, ti, ctxs) = case
+    return {'value': short(VALUES[vi][1], 60), 'kind': VALUES[vi][0], 'target': TARGETS[ti][0], 'contexts (inner to outer)': ctxs}
+
+
+def check_deep(case: t.Any, ctx: Ctx) -> None:
+    import pane
+    (vi, ti, ctxs) = case
+    (vkind, v) = VALUES[vi]
+    (tname, tspec, admitted) = TARGETS[ti]
+    if tname in LITERAL_TARGETS:
+        ctx.label('cell:not-formable')
+        return
+    (wspec, wv) = (tspec, v)
+    for c in ctxs:
+        emb = embed(c, wspec, wv, 'composed')
+        if emb is None:
+            ctx.label('cell:not-formable')
+            return
+        (wspec, wv) = emb
+    nd = tg.node(wspec)
+    cross = vkind not in admitted
+    ctx.label(f"deep:{'cross' if cross else 'same'}-kind:{len(ctxs)}")
+    ctx.nontrivial(cross)
+    r = nd.ref(wv)
+    if isinstance(r, tg.Unspec):
+        ctx.exclude(f"unspecified: {r.why}")
+        return
+    (k, got) = outcome(lambda: pane.from_data(wv, nd.pytype()))
+    cell = f"{vkind} value {short(v, 40)} -> {tname} inside {' inside '.join(ctxs)}"
+    if k == 'exc':
+        ctx.fail('strict-kinds', f"exception:{type(got).__name__}", f"{cell}: raised {type(got).__name__}: {str(got)[:200]}")
+    elif cross and k == 'ok':
+        ctx.fail('strict-kinds', f"{vkind}->{tname}", f"{cell}: accepted as {short(got, 80)}; a {vkind} must never be taken for {tname}")
+    elif not cross and isinstance(r, tg.Acc) and k != 'ok':
+        ctx.fail('table-accepts', f"{vkind}->{tname}", f"{cell}: refused although the value is a member: {str(got)[:200]}")
+    elif not cross and isinstance(r, tg.Rej) and k == 'ok':
+        ctx.fail('table-rejects', f"{vkind}->{tname}", f"{cell}: accepted as {short(got, 80)} but the value is not a member ({r.why})")
+
+
 def suites(tier: str) -> t.List[Suite]:
-    return [Suite('matrix', check, cases=cases, exhaustive=True, budget_s=600, render=render)]
+    big = tier == 'thorough'
+    return [
+        Suite('matrix', check, cases=cases, exhaustive=True, budget_s=600, render=render),
+        Suite('deep', check_deep, strategy=deep_cases, examples=20000 if big else 1500, budget_s=300 if big else 20, render=render_deep),
+    ]
